@@ -63,6 +63,11 @@ META["C14"] = dict(
     text="Kernel-checked on the hand model, for every byte string (resp. every text): SuciToStringWithError, naiToString, GutiToStringWithError, GutiToNasWithError, PeiToStringWithError, AmfIdToNasWithError, RequestedNssaiToModels (on decoded IEs) / snssaiToModels, LadnToModels, UESecurityCapabilityToByteArray, PSIToBooleanArray, UpuAckToModels, DNN.GetDNN and the 15 MobileIdentity5GS text getters return a value or an error, never a panic (every index and slice bound is discharged), and the three loops (NSSAI, LADN, DNN) finish within a fuel bound because each iteration advances (running out of fuel is a panic in the model). The real functions are run on exhaustive short and structured contents each run with a panic/hang oracle. Defects F2-F7 were repaired in /repo (fix: commits).",
     note=CONV_NOTE, technique="Lean 4 proof (NoPanic weakest-precondition calculus over a hand model with checked indexing; induction with progress measure for the loops) + Go/Lean correspondence + panic/hang oracle")
 
+META["C12"] = dict(
+    text="Kernel-checked on the hand model against Spec/Identity.lean (layouts of TS 24.501 9.11.3.4 / TS 24.008 10.5.1.13, text formats of TS 23.003), for every valid identity: PLMN octets <-> text in both directions and both round trips (all 2- and 3-digit MNCs); AMF id text <-> (region, set, pointer) is the 8/10/6 split in both directions, for all 2^24 identifiers; 5G-GUTI text -> wire equals Figure 9.11.3.4.1 and wire -> text equals the TS 23.003 text, both round trips, all PLMNs x 2^24 AMF ids x 2^32 TMSIs; IMEI/IMEISV of any digit count; SUCI (IMSI format) for every routing indicator of 1..4 digits, null scheme (any MSIN) and schemes 1..15 (any output octets). Invalid GUTI text (length, non-digit PLMN) and invalid AMF id text are errors (from the acceptance characterisation + C14 no-panic). Finite nibble facts by `decide` over 16x16 / 256 / 1024 cases, lifted by structural proofs.",
+    note=CONV_NOTE + " Spec/Identity.lean is a transcription of the 3GPP figures; the Go-side oracle (tools/harness/convert12.go) is a second independent reading used for counterexample search.",
+    technique="Lean 4 proof (model = independent layout/text specification for all valid identities; round trips as corollaries) + Go/Lean correspondence + layout/round-trip oracle on the real code")
+
 NOT_APPLICABLE = {
  "C01": "check not built yet in this round (Lean model + correspondence planned, see DESIGN.md section 4); not claimed until it runs",
  "C02": "check not built yet in this round (Lean model + correspondence planned, see DESIGN.md section 4); not claimed until it runs",
